@@ -66,7 +66,7 @@ reg('C10', 'harness.keys', design_ref='6/C10',
     stubs=KEY_STUBS, assumptions=KEY_ASSUME, expect_labels=['C10:distinct'])
 reg('C11', 'harness.keys', design_ref='6/C11',
     bounds={'quick': '24 shapes x ignore specifications of <= 3 elements drawn from parameter names, indices, \'*\', \'**\' (a selection) x {raw, str} keymaps + klepto.keygen; single-element specifications also given bare (ignore=0, ignore=\'a\'); methods with self ignored by name, alone and with names, * and **',
-            'thorough': 'the 72 shapes with at most 2 positional-or-keyword and 1 keyword-only parameter (plus the quick shapes) x every 1-element specification, 8 of the 2-element and 2 of the 3-element ones x 3 keymaps'},
+            'thorough': 'the 24 quick shapes x every 1-element specification, 8 of the 2-element and 2 of the 3-element ones x 3 keymaps (a run over 72 shapes did not finish within 30 minutes and was withdrawn)'},
     outside='presence/absence of an extra argument that is ignored by index or by name (not specified by the statement: neither direction demanded); index specifications on methods whose self is ignored (klepto renumbers after removing self: not specified)',
     stubs=KEY_STUBS, assumptions=KEY_ASSUME, expect_labels=['C11:merges', 'C11:discriminates'])
 reg('C17', 'harness.keys', design_ref='6/C17',
